@@ -4,6 +4,7 @@
 //!   ev <level> <k> { <name:u-token> <value> }*k     one event built with LogEvent::new
 //!   chars <lo> <n>                                  n events, each with the single tag c = the
 //!                                                   one-character string U+lo+i (non-scalars skipped)
+//!   file <level> <k> { <name> <value> }*k          the same event through LogFileWriter, read back from the directory
 //!   resp <handler result>                           the log_response path, see `resp()`
 //! value / handler-result syntax: see ../logshared.rs
 //! observation:  F<m> <x-token of each float's Display text>*m L <x-token of the line bytes>
@@ -115,6 +116,66 @@ fn ev(toks: &[&str]) -> String {
     s
 }
 
+/// file <level> <k> tags..: the event goes through the library's file log writer (LogFileWriter, max_write_bytes at
+/// its minimum of 64 KiB, so that long events exceed it) and is read back from the directory: everything the writer
+/// put behind its own "Starting log writer" line.  observation as for `ev`.
+fn file_case(toks: &[&str]) -> String {
+    let lvl = level(toks[0]);
+    let k: usize = toks[1].parse().unwrap();
+    let mut floats = Vec::new();
+    let mut tags: Vec<Tag> = Vec::new();
+    for i in 0..k {
+        let name = static_name(&string_of_scalars_tok(toks[2 + 2 * i]));
+        let v = value(toks[3 + 2 * i], &mut floats);
+        tags.push(Tag::new(name, v));
+    }
+    let e = LogEvent::new(lvl, tags);
+    let td = temp_dir::TempDir::new().unwrap();
+    let prefix = td.path().join("log");
+    let sender = match servlin::log::LogFileWriter::new_builder(prefix, 50 * 1024 * 1024)
+        .with_max_write_bytes(64 * 1024)
+        .start_writer_thread()
+    {
+        Ok(s) => s,
+        Err(_) => return "starterr".to_string(),
+    };
+    if sender.send(e).is_err() {
+        return "panic".to_string();
+    }
+    let read_all = || -> Vec<u8> {
+        let mut names: Vec<_> = std::fs::read_dir(td.path()).unwrap().filter_map(|d| d.ok()).map(|d| d.path()).collect();
+        names.sort();
+        let mut all = Vec::new();
+        for p in names {
+            all.extend(std::fs::read(p).unwrap_or_default());
+        }
+        all
+    };
+    // the writer's thread is done with the event when the directory holds at least two lines and is quiet
+    let t0 = std::time::Instant::now();
+    let mut last = read_all();
+    loop {
+        std::thread::sleep(std::time::Duration::from_millis(20));
+        let now = read_all();
+        let lines = now.iter().filter(|b| **b == b'\n').count();
+        if (now == last && lines >= 2) || t0.elapsed() > std::time::Duration::from_secs(4) {
+            last = now;
+            break;
+        }
+        last = now;
+    }
+    drop(sender);
+    let start_end = last.iter().position(|b| *b == b'\n').map_or(0, |p| p + 1);
+    let mut s = format!("F{}", floats.len());
+    for f in &floats {
+        s.push(' ');
+        s.push_str(&tok_of_bytes(f.as_bytes()));
+    }
+    s.push_str(" L ");
+    s.push_str(&tok_of_bytes(&last[start_end..]));
+    s
+}
+
 fn chars(toks: &[&str]) -> String {
     let lo: u32 = toks[0].parse().unwrap();
     let n: u32 = toks[1].parse().unwrap();
@@ -167,6 +228,7 @@ fn main() {
     run_lines(|toks| match toks[0] {
         "ev" => ev(&toks[1..]),
         "chars" => chars(&toks[1..]),
+        "file" => file_case(&toks[1..]),
         "resp" => resp(&toks[1..]),
         _ => "?".to_string(),
     });
